@@ -292,7 +292,27 @@ def explore_injection(R: Recorder, prog: list[dict[str, Any]], rng: random.Rando
         judge(R, prog, meta, out, {"program": prog, "meta": meta, "choices": choices, "k": k, "after_idles": j})
 
 
+def late_child_failure_programs():  # noqa: ANN201
+    """a task spawned in an inner scope fails only while that scope's normal exit waits for it (its error is silenced by design; on
+    CPython 3.12.1 the group's own cancel request is never taken back); afterwards an enclosing scope's body raises an error of its
+    own: that very error has to come out, and nothing counts as a cancellation"""
+    for exit_kind in ("raise-exc", "raise-keyerror", "raise-base", "raise-group"):
+        for mid in (False, True):
+            inner = {"op": "block", "kind": "ascope", "name": "in", "supply": [["R1", 2]], "catch": True,
+                     "body": [{"op": "probe", "id": 2}, {"op": "spawn", "via": "ctx", "name": "in.c0", "owner": "in", "body": [{"op": "gate", "label": "in.c0"}, {"op": "fail", "tag": "in.c0"}]}]}
+            body: list[dict[str, Any]] = [{"op": "probe", "id": 1}, inner, {"op": "probe", "id": 3}]
+            if mid:
+                body = [{"op": "probe", "id": 1}, {"op": "block", "kind": "sscope", "name": "mid", "supply": [["D2", 5]], "catch": True, "body": [inner], "exit": {"kind": "return"}}, {"op": "probe", "id": 3}]
+            out = {"op": "block", "kind": "ascope", "name": "out", "supply": [["D1", 1]], "catch": True, "body": body, "exit": {"kind": exit_kind}}
+            yield [{"op": "probe", "id": 0}, out, {"op": "probe", "id": 4}], {"block": "out", "kind": "ascope", "fault": "body-exception", "exit": exit_kind, "after_late_child_failure": True}
+
+
 def run(R: Recorder, tier: str, seed: int, shard: int, nshards: int) -> None:
+    if shard == 0:
+        rng0 = random.Random(f"C02/{seed}/late")
+        for p, meta in late_child_failure_programs():
+            R.count("programs_with_a_late_child_failure")
+            explore_variant(R, p, meta, rng0, DFS_CAP[tier])
     R.flags["exhaustive_core"] = "every block of every generated program x every applicable exit path (12 body outcomes (return, Exception, BaseException, self-raised CancelledError, external cancellation, 6 builtin exception classes, an exception group), disposable/child fault subsets) x gate-release orders (capped)"
     rngp = random.Random(f"C02/{seed}")
     rng = random.Random(f"C02/{seed}/{shard}")
